@@ -44,8 +44,23 @@ const (
 
 type c03tok struct {
 	kind int
-	text string // variable name / regex source
+	text string // variable name (optionally with a ::type suffix) / regex source / sign of a group
 	op   c03op
+	sign string // tkNegVar: "-" (default) or "+"
+}
+
+func (t c03tok) signText() string {
+	if t.sign == "" {
+		return "-"
+	}
+	return t.sign
+}
+
+func signFactor(sign string) string {
+	if sign == "+" {
+		return "1"
+	}
+	return "-1"
 }
 
 // refParse is the reference grouper: precedence climbing, left associative.
@@ -61,14 +76,14 @@ func (p *c03ref) atom() string {
 	case tkVar:
 		return t.text
 	case tkNegVar:
-		return "(-1 * " + t.text + ")"
+		return "(" + signFactor(t.signText()) + " * " + t.text + ")"
 	case tkRegex:
 		return "/" + t.text + "/"
 	case tkLP:
 		inner := p.expr(1)
 		p.pos++ // RP
-		if t.text == "-" {
-			return "(-1 * [" + inner + "])"
+		if t.text == "-" || t.text == "+" {
+			return "(" + signFactor(t.text) + " * [" + inner + "])"
 		}
 		return "[" + inner + "]"
 	}
@@ -94,6 +109,9 @@ func shapeOf(e influxql.Expr) string {
 	case *influxql.ParenExpr:
 		return "[" + shapeOf(e.Expr) + "]"
 	case *influxql.VarRef:
+		if e.Type != influxql.Unknown {
+			return e.Val + "::" + e.Type.String()
+		}
 		return e.Val
 	case *influxql.RegexLiteral:
 		return "/" + e.Val.String() + "/"
@@ -117,7 +135,7 @@ func renderC03(toks []c03tok, compact bool) string {
 		case tkVar:
 			b.WriteString(t.text)
 		case tkNegVar:
-			b.WriteString("-" + t.text)
+			b.WriteString(t.signText() + t.text)
 		case tkRegex:
 			b.WriteString("/" + t.text + "/")
 		case tkLP:
@@ -148,7 +166,7 @@ func neutraliseC03(toks []c03tok) []c03tok {
 		case t.kind == tkNegVar:
 			out = append(out, c03tok{kind: tkLP}, t, c03tok{kind: tkRP})
 		case t.kind == tkLP:
-			neg := t.text == "-"
+			neg := t.text == "-" || t.text == "+"
 			if neg {
 				out = append(out, c03tok{kind: tkLP})
 			}
@@ -171,7 +189,7 @@ func neutraliseC03(toks []c03tok) []c03tok {
 
 func hasNeg(toks []c03tok) bool {
 	for _, t := range toks {
-		if t.kind == tkNegVar || (t.kind == tkLP && t.text == "-") {
+		if t.kind == tkNegVar || (t.kind == tkLP && t.text != "") {
 			return true
 		}
 	}
@@ -186,6 +204,12 @@ func buildChain(ops []int, parens [][2]int, neg map[int]bool) []c03tok {
 
 // buildChainNP additionally negates the parenthesised ranges whose index is in negParen.
 func buildChainNP(ops []int, parens [][2]int, neg map[int]bool, negParen map[int]bool) []c03tok {
+	return buildChainX(ops, parens, neg, negParen, nil, nil)
+}
+
+// buildChainX: plus[i] turns the sign of a signed operand i (or of signed
+// group i) into an explicit plus; cast[i] appends a ::type suffix to operand i.
+func buildChainX(ops []int, parens [][2]int, neg map[int]bool, negParen map[int]bool, plus map[int]bool, cast map[int]string) []c03tok {
 	var toks []c03tok
 	n := len(ops) + 1
 	for i := 0; i < n; i++ {
@@ -194,6 +218,9 @@ func buildChainNP(ops []int, parens [][2]int, neg map[int]bool, negParen map[int
 				t := c03tok{kind: tkLP}
 				if negParen[pi] && !(i > 0 && c03ops[ops[i-1]].regex) {
 					t.text = "-"
+					if plus[-1-pi] {
+						t.text = "+"
+					}
 				}
 				toks = append(toks, t)
 			}
@@ -203,9 +230,13 @@ func buildChainNP(ops []int, parens [][2]int, neg map[int]bool, negParen map[int
 		case isRegex:
 			toks = append(toks, c03tok{kind: tkRegex, text: fmt.Sprintf("r%d", i)})
 		case neg[i]:
-			toks = append(toks, c03tok{kind: tkNegVar, text: fmt.Sprintf("v%d", i)})
+			t := c03tok{kind: tkNegVar, text: fmt.Sprintf("v%d", i) + cast[i]}
+			if plus[i] {
+				t.sign = "+"
+			}
+			toks = append(toks, t)
 		default:
-			toks = append(toks, c03tok{kind: tkVar, text: fmt.Sprintf("v%d", i)})
+			toks = append(toks, c03tok{kind: tkVar, text: fmt.Sprintf("v%d", i) + cast[i]})
 		}
 		for _, pr := range parens {
 			if pr[1] == i {
@@ -288,7 +319,7 @@ func init() { Registry["C03"] = checkC03 }
 
 func checkC03(c *Ctx) (string, bool, []string) {
 	r := c.R
-	rule := "all chains of k operators over the 19 operator spellings for k<=3 (k<=4 in thorough), compact and spaced; all placements of one or two parenthesised sub-chains for k<=3 with one operator per level; negated operand at each position for k<=2; negated parenthesised groups; random chains k=5..12 with parentheses and negations. Each case: ParseExpr shape vs reference grouper, then String()+ParseExpr shape. Non-trivial = k>=2 (grouping is observable); distinct by rendered text."
+	rule := "all chains of k operators over the 19 operator spellings for k<=3 (k<=4 in thorough), compact and spaced; all placements of one or two parenthesised sub-chains for k<=3 with one operator per level; signed operand (-x, +x, signed references with a ::type cast) and an operand inside one or two pairs of parentheses of its own at each position for k<=2; negated and explicitly positive parenthesised groups; groups whose whole content is a group; random chains k=5..12 with parentheses and negations. Each case: ParseExpr shape vs reference grouper, then String()+ParseExpr shape. Non-trivial = k>=2 (grouping is observable); distinct by rendered text."
 	assume := []string{"the five precedence levels and left associativity as written in the property statement", "a negated operand -x or -( … ) denotes the node (-1 * x) treated as an atom"}
 
 	if c.Replay != nil {
@@ -398,6 +429,14 @@ func checkC03(c *Ctx) (string, bool, []string) {
 					continue
 				}
 				jobs = append(jobs, job{buildChain(ops, nil, map[int]bool{pos: true}), false})
+				// explicit plus, and signed references that carry a cast
+				jobs = append(jobs, job{buildChainX(ops, nil, map[int]bool{pos: true}, nil, map[int]bool{pos: true}, nil), false})
+				ct := []string{"::float", "::integer", "::unsigned", "::string", "::boolean", "::field", "::tag"}[(pos+len(jobs))%7]
+				jobs = append(jobs, job{buildChainX(ops, nil, map[int]bool{pos: true}, nil, nil, map[int]string{pos: ct}), false})
+				jobs = append(jobs, job{buildChainX(ops, nil, map[int]bool{pos: true}, nil, nil, map[int]string{pos: "::float"}), false})
+				// the operand inside one and two pairs of parentheses of its own
+				jobs = append(jobs, job{buildChain(ops, [][2]int{{pos, pos}}, nil), false})
+				jobs = append(jobs, job{buildChain(ops, [][2]int{{pos, pos}, {pos, pos}}, nil), false})
 			}
 			i := k - 1
 			for i >= 0 {
@@ -453,12 +492,19 @@ func checkC03(c *Ctx) (string, bool, []string) {
 			if rg.P(0.6) {
 				a := rg.Intn(k)
 				b := rg.Range(a+1, k)
+				if rg.P(0.15) {
+					b = a // a group around a single operand
+				}
 				cand := [2]int{a, b}
+				if len(parens) > 0 && rg.P(0.25) {
+					cand = parens[rg.Intn(len(parens))] // a group whose whole content is a group
+					local["doubled-groups"]++
+				}
 				ok := true
 				for _, p := range parens {
 					disjoint := p[1] < cand[0] || cand[1] < p[0]
 					nested := (p[0] <= cand[0] && cand[1] <= p[1]) || (cand[0] <= p[0] && p[1] <= cand[1])
-					if !(disjoint || nested) || p == cand {
+					if !(disjoint || nested) {
 						ok = false
 					}
 				}
@@ -474,13 +520,29 @@ func checkC03(c *Ctx) (string, bool, []string) {
 			}
 		}
 		np := map[int]bool{}
+		plus := map[int]bool{}
+		cast := map[int]string{}
 		for pi := range parens {
 			if rg.P(0.25) {
 				np[pi] = true
 				local["negated-groups"]++
+				if rg.P(0.3) {
+					plus[-1-pi] = true
+					local["plus-groups"]++
+				}
 			}
 		}
-		toks := buildChainNP(ops, closeOrder(parens), neg, np)
+		for pos := 0; pos <= k; pos++ {
+			if neg[pos] && rg.P(0.3) {
+				plus[pos] = true
+				local["plus-operands"]++
+			}
+			if rg.P(0.15) && !(pos > 0 && c03ops[ops[pos-1]].regex) {
+				cast[pos] = rg.Pick("::float", "::integer", "::unsigned", "::string", "::boolean", "::field", "::tag")
+				local["cast-operands"]++
+			}
+		}
+		toks := buildChainX(ops, closeOrder(parens), neg, np, plus, cast)
 		c03One(c, toks, false, local)
 		local["random-chains"]++
 		r.DistinctStr(renderC03(toks, false))
@@ -518,14 +580,18 @@ func closeOrder(ps [][2]int) [][2]int {
 
 // lexC03 reads back a spaced rendering (replay only).
 func lexC03(s string) ([]c03tok, bool) {
-	s = strings.NewReplacer("-(", " -( ", "(", " ( ", ")", " ) ").Replace(s)
+	s = strings.NewReplacer("-(", " -( ", "+(", " +( ", "(", " ( ", ")", " ) ").Replace(s)
 	var toks []c03tok
 	for _, f := range strings.Fields(s) {
 		switch {
 		case f == "(":
 			toks = append(toks, c03tok{kind: tkLP})
-		case f == "-(" || f == "-":
+		case f == "-(":
 			toks = append(toks, c03tok{kind: tkLP, text: "-"})
+		case f == "+(":
+			toks = append(toks, c03tok{kind: tkLP, text: "+"})
+		case strings.HasPrefix(f, "+v"):
+			toks = append(toks, c03tok{kind: tkNegVar, text: f[1:], sign: "+"})
 		case f == ")":
 			toks = append(toks, c03tok{kind: tkRP})
 		case strings.HasPrefix(f, "/") && strings.HasSuffix(f, "/") && len(f) > 2:
